@@ -18,7 +18,12 @@ use super::Rule;
 use crate::base::{ReadStat, StatNode, TokenResult, WriteStat};
 #[cfg(feature = "exporter")]
 use crate::core::base::rule::SentinelRule;
+#[cfg(not(flea1lt_sentinel_rust_verif))]
 use std::sync::{Arc, Mutex, Weak};
+#[cfg(flea1lt_sentinel_rust_verif)]
+use std::sync::{Arc, Weak};
+#[cfg(flea1lt_sentinel_rust_verif)]
+use crate::verif::sync::{Mutex};
 
 /// Traffic Shaping `Calculator` calculates the actual traffic shaping threshold
 /// based on the threshold of rule and the traffic shaping strategy.
